@@ -53,6 +53,25 @@ impl El for [u64; 3] {
     }
 }
 
+/// One page, page-aligned.
+#[derive(Clone, Copy, PartialEq)]
+#[repr(align(4096))]
+pub struct Page([u64; 512]);
+impl core::fmt::Debug for Page {
+    fn fmt(&self, f: &mut core::fmt::Formatter<'_>) -> core::fmt::Result {
+        write!(f, "Page({})", self.0[0])
+    }
+}
+impl El for Page {
+    const NAME: &'static str = "Page (4096 bytes, align 4096)";
+    fn mk(i: usize) -> Self {
+        let mut p = Page([0x33; 512]);
+        p.0[0] = i as u64;
+        p.0[511] = !(i as u64);
+        p
+    }
+}
+
 #[derive(Debug, Clone, Copy, PartialEq, Eq, Hash, Serialize, Deserialize)]
 pub enum ROp {
     PushBack,
@@ -286,7 +305,7 @@ fn run_n<const N: usize, E: El>(c: &RCase) -> Result<bool, String> {
 }
 
 pub const RCAPS: [u16; 22] = [0, 1, 2, 3, 4, 5, 6, 7, 8, 9, 10, 11, 12, 13, 16, 17, 23, 32, 33, 64, 65, 100];
-pub const TYPES: u8 = 7;
+pub const TYPES: u8 = 8;
 
 fn run_ty<E: El>(c: &RCase) -> Result<bool, String> {
     macro_rules! table {
@@ -309,6 +328,8 @@ pub fn run_rcase(c: &RCase) -> Result<bool, String> {
         4 => run_ty::<u32>(c),
         5 => run_ty::<u64>(c),
         6 => run_ty::<[u64; 3]>(c),
+        7 if c.n <= 17 => run_ty::<Page>(c),
+        7 => Ok(false),
         t => Err(format!("element type {t} not in table")),
     }
 }
